@@ -16,7 +16,7 @@ from okdmr.dmrlib.etsi.fec.hamming_13_9_3 import Hamming1393
 EXPLANATION = ("C02: the 96 message bits are symbolic; after XOR-normalisation the Hamming syndromes of codeword+error are constants, so each "
                "error pattern is one path whose 96-bit decode==message identity is decided by the solver for all 2^96 messages at once.")
 BOUNDS = {"quick": "all 2^96 messages x {no error, all 196 single errors (declared split AND one symbolic-position run), all double errors with at least one "
-                   "bit in a VERIF_SEED-chosen row and column of the 13x15 matrix plus 600 seeded random pairs}",
+                   "bit in a VERIF_SEED-chosen row and column of the 13x15 matrix, all pairs inside a second row and column of the other kind (information / parity), plus 600 seeded random pairs}; one error pattern per path",
           "thorough": "all 2^96 messages x all 19,306 error patterns of weight <= 2 (declared split) + symbolic-position formulation for single errors"}
 OUTSIDE = "error weight >= 3"
 ASSUMPTIONS = []
@@ -79,14 +79,15 @@ def h_single_symbolic(hx):
 
 
 def h_patterns(hx, patterns):
+    # one pattern per path (declared split): a decoder whose control flow depends on the message then forks within its own pattern only
+    pat = hx.pick("pattern", patterns)
     m = hx.ba(96, "m")
     enc = BPTC19696.encode(m)
-    for pat in patterns:
-        rx = enc.copy()
-        for p in pat:
-            rx.invert(p)
-        dec = BPTC19696.deinterleave_data_bits(rx, repair_if_necessary=True)
-        hx.prove(dec == m, "errors at transmit positions %s: decode with repair returns the message" % (list(pat),))
+    rx = enc.copy()
+    for p in pat:
+        rx.invert(p)
+    dec = BPTC19696.deinterleave_data_bits(rx, repair_if_necessary=True)
+    hx.prove(dec == m, "errors at transmit positions %s: decode with repair returns the message" % (list(pat),))
     hx.cover("patterns")
 
 
@@ -100,11 +101,17 @@ def cases(tier, seed):
         rng = random.Random(seed)
         rc = _rowcol()
         row, col = rng.randrange(13), rng.randrange(15)
+        # plus one row / column of the other kind (information rows 0..8 vs column-parity rows 9..12; information columns 0..10 vs row-parity
+        # columns 11..14): for these two every pair INSIDE the row / column is taken
+        row2 = rng.randrange(9, 13) if row < 9 else rng.randrange(9)
+        col2 = rng.randrange(11, 15) if col < 11 else rng.randrange(11)
         sel = [p for p in pairs if any(i in rc and (rc[i][0] == row or rc[i][1] == col) for i in p)]
-        rest = [p for p in pairs if p not in set(sel)]
+        sel += [p for p in pairs if all(i in rc for i in p) and (rc[p[0]][0] == rc[p[1]][0] == row2 or rc[p[0]][1] == rc[p[1]][1] == col2)]
+        chosen = set(sel)
+        rest = [p for p in pairs if p not in chosen]
         sel += rng.sample(rest, 600)
         pats = singles + sorted(set(sel))
-        note = "row %d / column %d of the matrix + 600 random pairs (seed %d)" % (row, col, seed)
+        note = "row %d / column %d of the matrix, pairs inside row %d / column %d, 600 random pairs (seed %d)" % (row, col, row2, col2, seed)
     else:
         pats = singles + pairs
         note = "all patterns of weight <= 2"
